@@ -17,7 +17,7 @@ from report import Report
 PID = "C13"
 ADD_DEFUN = "compiler::comptypes::PrimaryCodegen::add_defun"
 SHA = "compiler::clvm::sha256tree"
-PASS_CALLS = ("clone", "deref", "borrow", "as_ref", "to_owned", "to_vec", "get", "as_bytes", "to_string", "into", "from",
+PASS_CALLS = ("clone", "cloned", "copied", "deref", "borrow", "as_ref", "to_owned", "to_vec", "get", "as_bytes", "to_string", "into", "from",
               "new", "hex", "decode", "fmt", "format", "must_use", "unwrap", "as_str", "deref_mut", "new_display", "new_debug")
 
 
@@ -209,14 +209,29 @@ def run(tier="quick", replay=None):
     if fe is None:
         R.viol("R13.O3", "R13.O3|anchor-lost|finalize_env_", "compiler::codegen", "anchor lost: finalize_env_")
     else:
+        # private helpers of the module (e.g. a split-out "what does this name stand for" lookup) are inlined
+        import inline
+        _fe0 = fe
+        _bp = inline.default_pred(prog, _fe0)
+        fe = inline.inlined(prog, _fe0, pred=lambda g: _bp(g) and inline.same_module(_fe0, g) and g.path != _fe0.path and len(g.blocks) <= 80, depth=2)
         fl = Flow(fe)
         gets = []
+        other_gets = []
         for bb, t in fe.calls():
             if (callee_of(t) or "").endswith("::get") and "HashMap" in (callee_of(t) or ""):
                 flds = fields_read_into(fe, fl, fl.back_pure([fl.node(op_place(t["args"][0]))])) if op_place(t["args"][0]) else set()
                 if "defuns" in flds:
                     gets.append((bb, t))
+                elif flds & {"tabled_constants", "constants", "inlines", "macros"}:
+                    other_gets.append((bb, t, sorted(flds)))
         R.floor("R13.O3", "defuns lookups in finalize_env_", len(gets), 1, fe.path)
+        # a name that is a function resolves to the function's code: no other table is consulted before `defuns`
+        for obb, ot, oflds in other_gets:
+            shadow = gets and not any(fe.dominates(gb, obb) for gb, _ in gets)
+            R.check(not shadow, "R13.O3", "R13.O3|defuns-consulted-first", fe.loc(obb),
+                    "auto: the lookup in %s comes after the defuns lookup" % oflds,
+                    "finalize_env_ consults %s before the function table: a constant (or other entry) of the same name takes the "
+                    "function's slot in the environment while the symbol table still names the function's hash" % oflds, fn=fe.path)
         for bb, t in gets:
             # Ok(..) assignments whose payload derives from this lookup
             found = False
